@@ -50,6 +50,7 @@ type Contract struct {
 	Params   []string // for iface/extern/callback: optional explicit parameter names
 	Refines  []string // interface method contracts this function must satisfy
 	GhostSets []GhostSet // ghost assignments performed by the function (ghost code)
+	NoLock   []Clause   // locks that must not be held at any blocking channel operation of the function
 	File     string
 	Line     int
 	Used     bool
@@ -81,7 +82,18 @@ type GhostVar struct {
 	Sort string
 }
 
+// GuardDecl: "guarded [var] T.f by mu" (lock discipline) or "onceinit T.f by Once" (once-only initialisation).
+type GuardDecl struct {
+	Kind   string // "field", "var", "once"
+	Target string // pkg.Type.field or pkg.var
+	By     string // field name of the lock / Once in the same struct, or pkg.var of the lock
+	Props  []string
+	File   string
+	Line   int
+}
+
 type Contracts struct {
+	Guards map[string]*GuardDecl
 	ByID   map[string]*Contract
 	Specs  map[string]*SpecFunc
 	Axioms []*Axiom
@@ -93,10 +105,11 @@ var clauseKeywords = map[string]bool{
 	"func": true, "iface": true, "extern": true, "callback": true, "spec": true, "axiom": true, "ghost": true,
 	"props": true, "arith": true, "flags": true, "requires": true, "ensures": true, "modifies": true,
 	"loop": true, "track": true, "panics": true, "statement": true, "refines": true, "ghost-set": true, "params": true, "assert": true, "lemma": true,
+	"guarded": true, "onceinit": true, "nolock": true,
 }
 
 func parseContracts(srcs []contractSource) (*Contracts, error) {
-	cs := &Contracts{ByID: map[string]*Contract{}, Specs: map[string]*SpecFunc{}, Ghosts: map[string]*GhostVar{}}
+	cs := &Contracts{Guards: map[string]*GuardDecl{}, ByID: map[string]*Contract{}, Specs: map[string]*SpecFunc{}, Ghosts: map[string]*GhostVar{}}
 	for _, src := range srcs {
 		// join continuation lines
 		type ln struct {
@@ -200,6 +213,32 @@ func parseContracts(srcs []contractSource) (*Contracts, error) {
 				}
 				cs.Specs[sf.Name] = sf
 				cur = nil
+			case "guarded", "onceinit":
+				// guarded [var] <target> by <lock> props P...   |   onceinit <target> by <OnceField> props P...
+				fs := strings.Fields(rest)
+				g := &GuardDecl{Kind: "field", File: src.File, Line: l.line}
+				if kw == "onceinit" {
+					g.Kind = "once"
+				}
+				if len(fs) > 0 && fs[0] == "var" {
+					g.Kind = "var"
+					fs = fs[1:]
+				}
+				if len(fs) < 3 || fs[1] != "by" {
+					return nil, errf("%s [var] <target> by <lock> [props ...]", kw)
+				}
+				g.Target, g.By = fs[0], fs[2]
+				if len(fs) > 3 {
+					if fs[3] != "props" {
+						return nil, errf("%s: expected 'props', got %q", kw, fs[3])
+					}
+					g.Props = fs[4:]
+				}
+				if _, dup := cs.Guards[g.Target]; dup {
+					return nil, errf("duplicate guard declaration for %s", g.Target)
+				}
+				cs.Guards[g.Target] = g
+				cur = nil
 			case "lemma":
 				id := rest
 				cur = &Contract{Kind: "lemma", ID: id, Flags: map[string]bool{}, Loops: map[int]*LoopSpec{}, File: src.File, Line: l.line}
@@ -255,6 +294,12 @@ func parseContracts(srcs []contractSource) (*Contracts, error) {
 						return nil, err
 					}
 					cur.GhostSets = append(cur.GhostSets, GhostSet{Name: strings.TrimSpace(rest[:lb]), Idx: ie, Val: c})
+				case "nolock":
+					c, err := mkClause(rest)
+					if err != nil {
+						return nil, err
+					}
+					cur.NoLock = append(cur.NoLock, c)
 				case "refines":
 					cur.Refines = append(cur.Refines, strings.Fields(rest)...)
 				case "params":
